@@ -46,6 +46,13 @@ pub fn gen_library(seed: u64, n: usize) -> BTreeMap<String, String> {
         }
         lib.insert(k, t);
     }
+    // notes of identical byte length that embed the same note, with equally long titles: every
+    // tie-break that falls back on load order or node ids shows here
+    lib.insert("shared/leaf".to_string(), "# Shared leaf\n\nleaf text\n".to_string());
+    for j in 0..6 {
+        lib.insert(format!("twin{}", j), format!("# Twin {}\n\n[leaf](shared/leaf)\n", (b'a' + (5 - j) as u8) as char));
+        lib.insert(format!("shared/same{}", j), "# Same\n\n[leaf](leaf)\n".to_string());
+    }
     lib
 }
 
